@@ -79,6 +79,25 @@ def cases(rng, tier):
         yield ("roundtrip", {"nq": 2, "qregs": [2], "instrs": instrs, "labels": [0, 1], "pool_idx": rng.sample(range(len(workflow.gen.LABEL_POOL)), 2),
                              "obs": [{"l": "ZZ", "p": 0}, {"l": "XY", "p": 0}, {"l": "ZI", "p": 0}], "idle": [], "part": [0, 1], "form": "dict",
                              "N": None, "seed": 0})
+    # a qubit recycled with reset inside a partition: reset, gates in which it is only the second operand, reset, re-use
+    for two in (("cx", None), ("crx", [0.9])) if tier == "quick" else (("cx", None), ("crx", [0.9]), ("cz", None), ("cy", None)):
+        g = {"name": two[0], "qubits": [0, 1]}
+        if two[1]:
+            g["params"] = list(two[1])
+        instrs = [{"name": "ry", "qubits": [0], "params": [0.7]}, {"name": "x", "qubits": [1]}, {"name": "reset", "qubits": [1]}, g,
+                  {"name": "cx", "qubits": [0, 1]}, {"name": "reset", "qubits": [1]}, {"name": "ry", "qubits": [1], "params": [1.1]},
+                  {"name": "rzz", "qubits": [1, 2], "params": [0.8]}, {"name": "h", "qubits": [2]}, {"name": "cx", "qubits": [2, 1]}]
+        yield ("roundtrip", {"nq": 3, "qregs": [3], "instrs": instrs, "labels": [0, 0, 1], "pool_idx": rng.sample(range(len(workflow.gen.LABEL_POOL)), 2),
+                             "obs": [{"l": "IXI", "p": 0}, {"l": "ZIY", "p": 0}, {"l": "ZZZ", "p": 0}, {"l": "XYI", "p": 0}], "idle": [],
+                             "part": [0, 0, 1], "form": rng.choice(["dict", "single"]), "N": None, "seed": 0})
+    # a partition that measures nine qubits in one group, results in SamplerV2 format (the observable register spans two bytes)
+    for _ in range(1 if tier == "quick" else 3):
+        instrs = [{"name": "h", "qubits": [q]} for q in rng.sample(range(9), 3)] + [{"name": "x", "qubits": [rng.randrange(9)]}]
+        instrs += [{"name": "cx", "qubits": [q, q + 1]} for q in range(0, 8) if rng.random() < 0.6]
+        instrs += [{"name": "cx", "qubits": [8, 9]}, {"name": rng.choice(["h", "x", "s"]), "qubits": [9]}]
+        yield ("roundtrip", {"nq": 10, "qregs": [10], "instrs": instrs, "labels": [0] * 9 + [1], "pool_idx": rng.sample(range(len(workflow.gen.LABEL_POOL)), 2),
+                             "obs": [{"l": "ZZZZZZZZZZ", "p": 0}, {"l": "ZIZIZIZIZZ", "p": 0}, {"l": "IZZZZZZZZI", "p": 0}], "idle": [],
+                             "part": [0] * 9 + [1], "form": "dict", "N": None, "seed": 0, "v2": True})
     for gate in (rng.sample(asym, 4) if tier == "quick" else asym):
         p = _descending_case(rng, gate)
         p.update(N=None, seed=0)
@@ -127,10 +146,31 @@ def _pipeline(payload):
     except ValueError:
         _cache[k] = ({"error": "ValueError"}, None)
         return _cache[k]
+    v2shots = {}
     if isinstance(exps, dict):
         labels = list(exps.keys())
         dists = {l: workflow.exact_quasi_dists(exps[l]) for l in labels}
-        results = {l: SamplerResult([QuasiDistribution(d) for d in dists[l]], [{}] * len(dists[l])) for l in labels}
+        if payload.get("v2"):
+            # SamplerV2 format: the exact (dyadic) distributions are encoded loss-free as shots in two BitArray registers
+            from qiskit.primitives import PrimitiveResult, SamplerPubResult, BitArray, DataBin
+            results = {}
+            for l in labels:
+                pubs, v2shots[l] = [], []
+                for circ, d in zip(exps[l], dists[l]):
+                    nb = next(r.size for r in circ.cregs if r.name == "observable_measurements")
+                    nqpd = next(r.size for r in circ.cregs if r.name == "qpd_measurements")
+                    m = next(mm for mm in range(0, 15) if all(abs(p_ * 2 ** mm - round(p_ * 2 ** mm)) < 1e-9 for p_ in d.values()))
+                    shots = []
+                    for kk, p_ in sorted(d.items()):
+                        shots += [(int(kk) & ((1 << nb) - 1), int(kk) >> nb)] * int(round(p_ * 2 ** m))
+                    nbo, nbq = (nb + 7) // 8, (nqpd + 7) // 8
+                    oa = np.array([[(o >> (8 * (nbo - 1 - j))) & 255 for j in range(nbo)] for o, q in shots], dtype=np.uint8)
+                    qa = np.array([[(q >> (8 * (nbq - 1 - j))) & 255 for j in range(nbq)] for o, q in shots], dtype=np.uint8)
+                    pubs.append(SamplerPubResult(DataBin(observable_measurements=BitArray(oa, nb), qpd_measurements=BitArray(qa, nqpd), shape=())))
+                    v2shots[l].append([[o, q] for o, q in shots])
+                results[l] = PrimitiveResult(pubs)
+        else:
+            results = {l: SamplerResult([QuasiDistribution(d) for d in dists[l]], [{}] * len(dists[l])) for l in labels}
         subobs = observables
     else:
         labels = ["A"]
@@ -145,7 +185,10 @@ def _pipeline(payload):
         oc = ObservableCollection(so)
         groups = [{"n_idx": len(c.pauli_indices), "masks": [int(m) for m in c.pauli_bitmasks]} for c in oc.groups]
         lookup = [[[int(m), int(n)] for m, n in oc.lookup[ob]] for ob in so]
-        subs.append({"groups": groups, "lookup": lookup, "results": [{"v1": [[int(kk), frac(v)] for kk, v in d.items()]} for d in dists[l]]})
+        if l in v2shots:
+            subs.append({"groups": groups, "lookup": lookup, "results": [{"v2": sh} for sh in v2shots[l]]})
+        else:
+            subs.append({"groups": groups, "lookup": lookup, "results": [{"v1": [[int(kk), frac(v)] for kk, v in d.items()]} for d in dists[l]]})
     line = {"op": "c06.reconstruct", "subs": subs, "coeffs": [frac(c) for c, _ in coeffs], "nobs": nobs}
     _cache[k] = ({"ok": [float(v) for v in vals]}, line)
     return _cache[k]
